@@ -128,23 +128,19 @@ def ascii_only(s: str) -> str:
     return ''.join(c for c in s if ord(c) < 128)
 
 
-def mode_lines(out: str) -> None:
-    """The string as the value of a line produced by a real writer, read back by the real tokenizer
-    with the options the corresponding parser uses."""
+def writer_line(writer: str, s: str) -> tuple:
+    """-> (text written by the real writer with s as a value, index (1-based) of the token that must be s)."""
     from srctools.keyvalues import Keyvalues
     from srctools.vmf import VMF, Entity
-    rng = random.Random(2000 + hlib.seed())
-    n = 6000 if hlib.tier() == 'thorough' else 600
-    w = hlib.RecWriter(out)
-    for _ in range(n):
-        s = rand_string(rng)[:60]
-        # KeyValues1 leaf: "name" "value"\n
+    if writer == 'Keyvalues.export':
         with warnings.catch_warnings():
             warnings.simplefilter('ignore')
-            text = ''.join(Keyvalues('name', s).export())
-        w.write(line_record('Keyvalues.export', text, 2, s, toklib.KV_OPTS))
-        w.write(line_record('Keyvalues.serialise', Keyvalues('name', s).serialise(), 2, s, toklib.KV_OPTS))
-        # VMF entity: entity { "id" "1" "classname" "..." "key" "value" ...
+            return ''.join(Keyvalues('name', s).export()), 2
+    if writer == 'Keyvalues.serialise':
+        return Keyvalues('name', s).serialise(), 2
+    if writer == 'Keyvalues.serialise(name)':       # the string as the NAME of a leaf
+        return Keyvalues(s, 'value').serialise(), 1
+    if writer == 'Entity.export':
         vmf = VMF()
         ent = Entity(vmf, keys={'classname': 'info_target', 'message': s})
         buf = io.StringIO()
@@ -153,7 +149,37 @@ def mode_lines(out: str) -> None:
         idx = next((i for i, t in enumerate(toks) if t['t'] == 'STRING' and t['v'] == cps('message')), None)
         if idx is None:
             raise SystemExit('MACHINERY: VMF entity export has no "message" key')
-        w.write(line_record('Entity.export', buf.getvalue(), idx + 2, s, toklib.KV_OPTS))
+        return buf.getvalue(), idx + 2
+    if writer == 'BSP.write_ent_data':               # multiline escaping, ASCII bytes
+        from srctools.bsp import BSP
+        vmf = VMF()
+        vmf.create_ent('info_target', message=s)
+        text = BSP.write_ent_data(vmf, _show_dep=False).decode('ascii', 'surrogateescape')
+        toks = toklib.tokenize(text, toklib.TOK_DEFAULTS)['toks']
+        idx = next((i for i, t in enumerate(toks) if t['t'] == 'STRING' and t['v'] == cps('message')), None)
+        if idx is None:
+            raise SystemExit('MACHINERY: entity lump has no "message" key')
+        return text, idx + 2
+    raise SystemExit(f'MACHINERY: unknown writer {writer}')
+
+
+WRITERS = ('Keyvalues.export', 'Keyvalues.serialise', 'Keyvalues.serialise(name)', 'Entity.export')
+
+
+def mode_lines(out: str) -> None:
+    """The string as a value (or name) in a line produced by a real writer, read back by the real
+    tokenizer with the options the corresponding parser uses."""
+    rng = random.Random(2000 + hlib.seed())
+    n = 6000 if hlib.tier() == 'thorough' else 600
+    w = hlib.RecWriter(out)
+    for _ in range(n):
+        s = rand_string(rng)[:60]
+        for writer in WRITERS:
+            text, idx = writer_line(writer, s)
+            w.write(line_record(writer, text, idx, s, toklib.KV_OPTS))
+        sa = ascii_only(s)
+        text, idx = writer_line('BSP.write_ent_data', sa)
+        w.write(line_record('BSP.write_ent_data', text, idx, sa, toklib.TOK_DEFAULTS))
     w.close()
     print(json.dumps({'records': w.n}))
 
@@ -167,7 +193,8 @@ def mode_replay(path: str, out: str) -> None:
     elif r['k'] == 'embed':
         w.write(embed_record(uncps(r['pre']), uncps(r['s']), r['ml'], uncps(r['suf']), r['o']))
     else:
-        raise SystemExit('MACHINERY: line records are re-created by the lines mode only')
+        text, idx = writer_line(r['writer'], uncps(r['s']))
+        w.write(line_record(r['writer'], text, idx, uncps(r['s']), r['o']))
     w.close()
 
 
